@@ -73,7 +73,7 @@ Lemma sim_ht s v : R s v -> ambiguous v CHt = false ->
   exists s', addbytes s (enc_cmd CHt) = Ok s' /\ R s' (exec v CHt).
 Proof.
   intros HR Ha. pose proof (R_idle s v HR) as [He Hp Hu Hd Hm]. destruct HR as (H0 & _).
-  pose proof (R0_bounds s v H0) as B. pose proof H0 as [].
+  pose proof (R0_bounds s v H0) as B. pose proof (R0_org s v H0) as Og. pose proof H0 as [].
   cbn [enc_cmd exec ambiguous] in *. rewrite addbytes_1. rewrite addbyte_ascii by (auto; lia). rewrite pc_ht by assumption.
   unfold tab. rewrite r_cur.
   rewrite (tab_loop_default _ s v (v_x v) (R0_Rg s v H0)) by lia. cbn [bind fst snd].
@@ -81,6 +81,6 @@ Proof.
   destruct (stc_frame (with_rotten s false) (Z.min (v_w v - 1) ((v_x v / 8 + 1) * 8)) (v_y v)) as (_ & _ & _ & Ei & Ep & _).
   split; [|split; [rewrite Ei; exact He|rewrite Ep; exact Hp]].
   pose proof (Z.div_pos (v_x v) 8 ltac:(lia) ltac:(lia)).
-  erewrite with_xy_eq; [apply R0_move; assumption| |]; unfold clamp; split_ifs; lia.
+  erewrite with_xy_eq; [apply R0_move; assumption| |]; [unfold clamp; split_ifs; lia|csolve v Og].
 Qed.
 
